@@ -1,5 +1,278 @@
-//! C15 (placeholder until the enumerator is written).
-pub fn check(_tier: &str, _seed: u64) -> i32 {
-    eprintln!("C15 not implemented yet");
-    2
+//! C15: fault enumeration.  For each seeded script, one run per medium event
+//! index of every kind (read, write, seek, flush), transient and persistent,
+//! plus seeded pairs of transient faults and disk-full thresholds.
+
+use crate::disk::{EvKind, FaultSpec};
+use crate::gen::{self, Profile};
+use crate::ops::*;
+use crate::prng::{mix, Prng};
+use crate::runner::*;
+use std::collections::BTreeMap;
+use std::sync::atomic::{AtomicU64, Ordering};
+use std::sync::Mutex;
+use std::time::Instant;
+
+const KINDS: [EvKind; 4] = [EvKind::Read, EvKind::Write, EvKind::Seek, EvKind::Flush];
+
+pub fn script(seed: u64, idx: u64) -> Trace {
+    let mut t = gen::generate("C15", Profile::Script, seed, idx);
+    // scripts observe rarely: the oracle of interest is at flush / hand-back
+    t.knobs.observe_pct = if idx % 3 == 0 { 30 } else { 0 };
+    t.knobs.disk.write_back = idx % 2 == 1;
+    t
+}
+
+struct Tally {
+    agg: Agg,
+    positions: u64,
+    fired: u64,
+    reported_err: u64,
+    found: Vec<Found>,
+    scripts: u64,
+    sample: Vec<String>,
+}
+
+/// All single-fault plans for a script, given its fault-free event counts.
+fn plans(base: &crate::exec::RunStats, seed: u64, idx: u64, thorough: bool) -> Vec<(Vec<FaultSpec>, Option<u64>)> {
+    let mut out = Vec::new();
+    let mut rng = Prng::new(mix(&[seed, idx, 0xfa17]));
+    for (op_id, counts) in base.op_events.iter() {
+        for k in KINDS.iter() {
+            let n = counts[k.idx()];
+            // Package::create alone issues thousands of tiny writes: sample it
+            // (reads of the initial open are all enumerated: a fault there ends the run early)
+            let stride = if *op_id == 0 && n > 400 && *k != EvKind::Read { (n / if thorough { 400 } else { 120 }).max(1) } else { 1 };
+            let mut nth = if stride > 1 { rng.below(stride as u64) as u32 } else { 0 };
+            while nth < n {
+                for persistent in [false, true] {
+                    out.push((vec![FaultSpec { op_id: *op_id, kind: *k, nth, persistent }], None));
+                }
+                nth += stride;
+            }
+        }
+    }
+    // pairs of transient faults
+    let all: Vec<(u32, EvKind, u32)> = base
+        .op_events
+        .iter()
+        .filter(|(id, _)| *id != 0)
+        .flat_map(|(id, c)| KINDS.iter().flat_map(move |k| (0..c[k.idx()]).map(move |n| (*id, *k, n))))
+        .collect();
+    if all.len() >= 2 {
+        for _ in 0..(if thorough { 60 } else { 20 }) {
+            let a = all[rng.usize_below(all.len())];
+            let b = all[rng.usize_below(all.len())];
+            out.push((
+                vec![
+                    FaultSpec { op_id: a.0, kind: a.1, nth: a.2, persistent: false },
+                    FaultSpec { op_id: b.0, kind: b.1, nth: b.2, persistent: false },
+                ],
+                None,
+            ));
+        }
+    }
+    // disk-full thresholds
+    let len = base.final_len.max(1024);
+    for f in [300u64, 600, 800, 900, 950, 990, 999] {
+        out.push((Vec::new(), Some(len * f / 1000)));
+    }
+    out.push((Vec::new(), Some(len - 1)));
+    out.push((Vec::new(), Some(len.saturating_sub(512))));
+    out
+}
+
+pub fn check(tier: &str, seed: u64) -> i32 {
+    let thorough = tier == "thorough";
+    let scale: f64 = std::env::var("VERIF_SCALE").ok().and_then(|s| s.parse().ok()).unwrap_or(1.0);
+    let nscripts = (((if thorough { 400 } else { 12 }) as f64) * scale).max(1.0) as u64;
+    let t0 = Instant::now();
+    let known = load_known();
+    let tally = Mutex::new(Tally {
+        agg: Agg::default(),
+        positions: 0,
+        fired: 0,
+        reported_err: 0,
+        found: Vec::new(),
+        scripts: 0,
+        sample: Vec::new(),
+    });
+    // phase 1: fault-free runs of every script, and their fault plans
+    let next = AtomicU64::new(0);
+    let work: Mutex<Vec<(u64, Trace, Vec<FaultSpec>, Option<u64>)>> = Mutex::new(Vec::new());
+    std::thread::scope(|s| {
+        for _ in 0..threads() {
+            s.spawn(|| loop {
+                let idx = next.fetch_add(1, Ordering::Relaxed);
+                if idx >= nscripts {
+                    break;
+                }
+                let attempt = std::panic::catch_unwind(std::panic::AssertUnwindSafe(|| {
+                    let base_trace = script(seed, idx);
+                    let base = run_one(&base_trace);
+                    let bad: Vec<Found> = base
+                        .violations
+                        .iter()
+                        .filter(|v| v.property() == "C15")
+                        .map(|v| Found { trace: base_trace.clone(), violation: v.clone() })
+                        .collect();
+                    let pl = if base.violations.is_empty() { plans(&base.stats, seed, idx, thorough) } else { Vec::new() };
+                    (base_trace, bad, pl)
+                }));
+                match attempt {
+                    Ok((bt, bad, pl)) => {
+                        {
+                            let mut t = tally.lock().unwrap();
+                            t.scripts += 1;
+                            if t.sample.len() < 3 {
+                                t.sample.push(bt.brief());
+                            }
+                            t.found.extend(bad);
+                        }
+                        let mut w = work.lock().unwrap();
+                        for (f, c) in pl {
+                            w.push((idx, bt.clone(), f, c));
+                        }
+                    }
+                    Err(_) => {
+                        eprintln!("harness error: simulator panicked in script {} (seed {})", idx, seed);
+                        HARNESS_ERRORS.fetch_add(1, Ordering::Relaxed);
+                    }
+                }
+            });
+        }
+    });
+    let mut work = work.into_inner().unwrap();
+    work.sort_by(|a, b| (a.0, &a.2.len(), a.2.first().map(|f| (f.op_id, f.kind.idx(), f.nth, f.persistent)), a.3)
+        .cmp(&(b.0, &b.2.len(), b.2.first().map(|f| (f.op_id, f.kind.idx(), f.nth, f.persistent)), b.3)));
+    // phase 2: one run per fault plan
+    let next = AtomicU64::new(0);
+    let work = &work;
+    std::thread::scope(|s| {
+        for _ in 0..threads() {
+            s.spawn(|| {
+                let mut local = Agg::default();
+                let mut found: Vec<Found> = Vec::new();
+                let (mut positions, mut fired, mut reported) = (0u64, 0u64, 0u64);
+                loop {
+                    let i = next.fetch_add(1, Ordering::Relaxed) as usize;
+                    if i >= work.len() {
+                        break;
+                    }
+                    let (_, bt, faults, cap) = &work[i];
+                    let attempt = std::panic::catch_unwind(std::panic::AssertUnwindSafe(|| {
+                        let mut t = bt.clone();
+                        t.faults = faults.clone();
+                        t.knobs.disk.capacity = *cap;
+                        let r = run_one(&t);
+                        (t, r)
+                    }));
+                    let (t, r) = match attempt {
+                        Ok(x) => x,
+                        Err(_) => {
+                            eprintln!("harness error: simulator panicked in fault plan {} (seed {})", i, seed);
+                            HARNESS_ERRORS.fetch_add(1, Ordering::Relaxed);
+                            continue;
+                        }
+                    };
+                    positions += 1;
+                    let st = &r.stats.disk;
+                    let hard: u64 =
+                        st.hard_transient.iter().sum::<u64>() + st.hard_persistent.iter().sum::<u64>() + st.storage_full;
+                    if hard > 0 {
+                        fired += 1;
+                    }
+                    if r.stats.probes.contains_key("fault_reported_as_error") {
+                        reported += 1;
+                    }
+                    local_absorb(&mut local, &t, &r.stats, i as u64);
+                    if let Some(v) = r.violations.iter().find(|v| v.property() == "C15") {
+                        if found.len() < 8 {
+                            found.push(Found { trace: t.clone(), violation: v.clone() });
+                        }
+                    }
+                }
+                let mut t = tally.lock().unwrap();
+                merge(&mut t.agg, local);
+                t.positions += positions;
+                t.fired += fired;
+                t.reported_err += reported;
+                for f in found {
+                    if t.found.len() < 128 {
+                        t.found.push(f);
+                    }
+                }
+            });
+        }
+    });
+    let mut t = tally.into_inner().unwrap();
+    t.found.sort_by_key(|f| (f.trace.run, f.trace.faults.first().map(|x| (x.op_id, x.nth)).unwrap_or((0, 0))));
+    let mut violations = 0usize;
+    let mut reported: Vec<String> = Vec::new();
+    let mut known_hits: Vec<String> = Vec::new();
+    for f in t.found.iter() {
+        let sig0 = f.violation.signature();
+        if reported.contains(&sig0) {
+            continue;
+        }
+        let (mt, mv, _) = minimise(f, 300);
+        if let Some(k) = known.matches(&mv).or_else(|| known.matches(&f.violation)) {
+            let line = format!("KNOWN-FINDING: property=C15 {} [{}]", k.2, k.1);
+            if !known_hits.contains(&line) {
+                println!("{}", line);
+                known_hits.push(line);
+            }
+            continue;
+        }
+        reported.push(sig0);
+        let path = write_replay("C15", &mt, &mv);
+        violations += 1;
+        println!("violation: check={} site={} ops={} faults={:?} message={}", mv.check, mv.site, mt.ops.len(), mt.faults, mv.message);
+        println!("VIOLATION property=C15 replay={}", path.display());
+    }
+    report_known(&known, "C15", &mut known_hits);
+    let wall = t0.elapsed().as_secs_f64();
+    let mut extra = BTreeMap::new();
+    extra.insert("scripts".to_string(), serde_json::json!(t.scripts));
+    extra.insert("fault_plans_executed".to_string(), serde_json::json!(t.positions));
+    extra.insert("plans_in_which_a_fault_fired".to_string(), serde_json::json!(t.fired));
+    extra.insert("plans_in_which_a_call_reported_the_fault".to_string(), serde_json::json!(t.reported_err));
+    extra.insert(
+        "enumeration".to_string(),
+        serde_json::json!("per script: every event index of kinds read/write/seek/flush in every operation after Package::create (create itself sampled with a stride), transient and persistent; plus seeded pairs of transient faults and disk-full thresholds"),
+    );
+    let mut agg = t.agg;
+    agg.samples = t.sample.clone();
+    // distinct non-trivial = fault plans in which the fault actually fired
+    let fired = t.fired;
+    let rep = CheckReport {
+        property: "C15".into(),
+        tier: tier.into(),
+        seed,
+        level: "fault_enumeration".into(),
+        agg,
+        wall_s: wall,
+        violations,
+        known_hits,
+        rule: "one case = (seeded script of 3-10 valid operations) x (one fault plan: a single fault at one event index of one kind in one operation, transient or persistent; or a pair; or a disk-full threshold). Every plan is distinct by construction; non-trivial = the planned fault actually fired. distinct_nontrivial counts those plans.".into(),
+        assumptions: vec![
+            "a buffered StreamWriter dropped without flush() loses errors by std::io::Write convention; scripts flush stream writers explicitly".into(),
+            "after a call has reported an injected fault nothing but 'no panic' is required for the rest of the session".into(),
+            "cfb 0.10.0 is trusted as container reader for the verification reopen".into(),
+        ],
+        per_profile: vec![("script".into(), t.positions)],
+        extra,
+    };
+    write_evidence_with_distinct(&rep, fired);
+    println!(
+        "scripts={} fault_plans={} fired={} reported_as_error={} wall={:.1}s violations={}",
+        t.scripts, t.positions, t.fired, t.reported_err, wall, violations
+    );
+    if HARNESS_ERRORS.load(Ordering::Relaxed) > 0 {
+        return 2;
+    }
+    if violations > 0 {
+        1
+    } else {
+        0
+    }
 }
